@@ -126,6 +126,7 @@ def tlc(specdir, module, cfg, workdir, workers=8, timeout=900, extra=(), heap="4
     except subprocess.TimeoutExpired as e:
         out = (e.stdout or b"").decode("utf-8", "replace") if isinstance(e.stdout, bytes) else (e.stdout or "")
         rc = -9
+        subprocess.run(["pkill", "-f", meta], stdout=subprocess.DEVNULL, stderr=subprocess.DEVNULL)
     shutil.rmtree(meta, ignore_errors=True)
     res = dict(out=out, rc=rc, wall=time.time() - t0, generated=0, distinct=0, cmd=" ".join(cmd))
     m = re.findall(r"(\d+) states generated, (\d+) distinct states found", out)
